@@ -89,10 +89,13 @@ class Tools:
         src = {"fn": "ustack_harness.c", "drv": "ustack_drv_harness.c"}[kind]
         srcs = [src, "sp_ienv_verif.c"]
         link = []
+        if kind == "drv":
+            srcs += ["lock_jitter.c"]            # schedule perturbation before every mutex lock (on when VERIF_LOCK_JITTER is set)
+            link = ["-Wl,--wrap=pthread_mutex_lock"]
         if faulty:
             srcs += ["verif_malloc.c", "ledger_trace.c"]
             fl = fl + ["-DVERIF_FAULT"]
-            link = ["-no-pie", "-Wl,--wrap=verif_malloc"]
+            link = link + ["-no-pie", "-Wl,--wrap=verif_malloc"]
         if "asan" in flavor:
             fl = fl + ["-DVERIF_ASAN"]
         e = self.ctx.cc_harness("ustack_%s_%s_%d" % (kind, flavor, prec), srcs, lib, fl, extra_link=link)
@@ -106,8 +109,10 @@ class Tools:
 
 
 # ----------------------------------------------------------------------------- running and parsing
-def run_cases(exe, text, alarm=4, timeout=600, args=()):
+def run_cases(exe, text, alarm=4, timeout=600, args=(), jitter=0):
     env = dict(RUN_ENV, VERIF_ALARM=str(alarm))
+    if jitter:
+        env["VERIF_LOCK_JITTER"] = str(jitter)
     rc, o, e = vf.sh2([exe] + list(args), inp=text, timeout=timeout, env=env)
     return o.split("\n")
 
@@ -510,7 +515,7 @@ def drv_workspace_sweep(ctx, tools, rng, prec, stats, flavor="hooks"):
         if rng.random() < 0.3:
             env[8] = rng.choice([-2, -3, -30])
             env[7] = rng.choice([-1, -5, -50])
-        P = rng.randint(1, 2)       # P >= 3 has a scheduling-dependent defect of its own: see drv_thread_stress
+        P = rng.choice([1, 2, 2])   # P >= 3 has a scheduling-dependent defect of its own: see drv_thread_stress
         call = rng.choice(["gssvx", "gssvx", "gstrf"])
         ba = rng.choice([0, 0, 4, 1, 3, 7])
         # first: the inputs of MemInit for this matrix
@@ -543,7 +548,8 @@ def drv_workspace_sweep(ctx, tools, rng, prec, stats, flavor="hooks"):
         return
     # the query runs with L.Store = U.Store = NULL: it must not touch them
     text = "".join(drv_case("j%d" % i, j[0], j[1], j[2], j[4], j[5], balign=j[3], env=j[6], poison=1 if j[2] == -1 else 0) for i, j in enumerate(jobs))
-    out = parse_drv(run_cases(exe, text, alarm=20, timeout=900))
+    # every mutex lock of the library is preceded by a random delay: two workers reach ?user_malloc / WorkInit together
+    out = parse_drv(run_cases(exe, text, alarm=30, timeout=1800, jitter=300))
     # model predictions
     mtext = ""
     for i, j in enumerate(jobs):
@@ -584,6 +590,8 @@ def drv_workspace_sweep(ctx, tools, rng, prec, stats, flavor="hooks"):
             symptom = "terminated with %s %s" % (r["end"], r["diag"][:80])
         elif canary_bad:
             symptom = "wrote %s bytes outside the user buffer (canaries)" % res.get("canary_bytes", "?")
+        elif res and str(res.get("ustack", "")).startswith("bad"):
+            symptom = "the two-ended user stack lost its invariant (top1 <= top2, used = top1 + size - top2 <= size): %s" % res.get("ustack")
         elif info == 0 and res.get("inbuf") == "bad":
             symptom = "returned info=0 with L/U arrays outside the user buffer"
         elif info == 0 and float(res.get("relerr", "nan")) > (1e-3 if prec in (0, 2) else 1e-9):
@@ -598,7 +606,9 @@ def drv_workspace_sweep(ctx, tools, rng, prec, stats, flavor="hooks"):
             symptom = "solution differs bitwise from the internally allocated mode at one thread"
         if symptom:
             stats["drv_oracle_fail"] += 1
-            if pred["kind"] == "wild":
+            us = str(res.get("ustack", "")) if res else ""
+            if pred["kind"] == "wild" or (us.startswith("bad") and re.search(r"used=-|top1=-", us)):
+                # the retry loop of MemInit gave back blocks it never received: used / top1 below zero (known finding C14-overfree)
                 defect = "meminit_retry_overfree"
             elif pred["kind"] == "overlap":
                 defect = "workinit_align_overlap"
